@@ -41,6 +41,7 @@ type Unit struct {
 	sitePrefix string
 	closures   []*Closure
 	rndArgs    []*Term
+	rndArgs32  []*Term
 	rndHints   []*Term
 	calls      map[string]bool
 	unbound    []string
@@ -420,7 +421,10 @@ func (u *Unit) freshValue(st *State, static types.Type, name string) Value {
 			return v
 		}
 	case *types.Interface:
-		return Value{K: KIface, T: t}
+		// an interface value of unknown dynamic type: modelled as wrapping an arbitrary
+		// comparable value (enough for equality tests on `any` / comparable parameters)
+		inner := Value{K: KInt, T: types.Typ[types.Int], Term: u.ctx.Fresh(name+".dyn", SInt)}
+		return Value{K: KIface, T: t, Inner: &inner}
 	}
 	u.errorf("freshValue: unsupported type %s", t)
 	return Value{K: KUnit, T: t}
